@@ -669,12 +669,13 @@ Lemma words_loop_S f hi tord spans full lk ck idx sum :
                 let sp2 := compact spans1 maxw in
                 if SPAN_CAP <=? N.of_nat (length sp2) then
                   do g0 <- give_up P (S (N.to_nat (hi - (idx + 1)))) (idx + 1) hi ck ck1;
-                  Done (sp2, match fst g0 with Some i => i | None => idx + 1 end, snd g0, true)
-                else Done (sp2, idx + 1, ck1, full1)
-              else Done (spans1, idx + 1, ck1, full1));
-    let '(spans2, idx2, ck2, full2) := cg in
+                  do extra <- give_up_sum P (S (N.to_nat (hi - (idx + 1)))) (idx + 1) hi ck;
+                  Done (sp2, match fst g0 with Some i => i | None => hi end, snd g0, true, extra)
+                else Done (sp2, idx + 1, ck1, full1, 0)
+              else Done (spans1, idx + 1, ck1, full1, 0));
+    let '(spans2, idx2, ck2, full2, extra) := cg in
     let st' := {| ts_spans := spans2; ts_full := full2; ts_last_key := ck; ts_curr_key := ck2; ts_idx := idx2;
-                  ts_sum := sum + popcount (wpay w) |} in
+                  ts_sum := sum + popcount (wpay w) + extra |} in
     if negb (ck2 =? ck) then Done st' else words_loop P f hi tord nt maxw st'
   else Done {| ts_spans := spans; ts_full := full; ts_last_key := lk; ts_curr_key := ck; ts_idx := idx; ts_sum := sum |}.
 Proof. rewrite bl70_eq. reflexivity. Qed.
@@ -719,26 +720,28 @@ Proof.
   { unfold ck1. destruct (N.ltb_spec (idx + 1) hi); [rewrite rdP by lia|]; reflexivity. }
   rewrite Eck in H. cbn [bind] in H.
   (* what the compaction / give-up step returns *)
-  assert (Hcg : forall spans2 idx2 ck2 full2 rest,
+  assert (Hcg : forall spans2 idx2 ck2 full2 extra rest,
      (idx2 = idx + 1 /\ ck2 = ck1) \/
      (ck2 <> ck /\ idx + 1 <= idx2 /\ idx2 < hi /\ ck2 = dkey (g idx2) /\ (forall j, idx + 1 <= j -> j < idx2 -> dkey (g j) = ck)) \/
-     (idx2 = idx + 1 /\ ck2 = ck /\ (forall j, idx + 1 <= j -> j < hi -> dkey (g j) = ck)) ->
+     (idx2 = hi /\ ck2 = ck /\ (forall j, idx + 1 <= j -> j < hi -> dkey (g j) = ck)) ->
      (if negb (ck2 =? ck) then Done rest else words_loop P f hi tord nt maxw
          {| ts_spans := spans2; ts_full := full2; ts_last_key := ck; ts_curr_key := ck2; ts_idx := idx2;
-            ts_sum := sum + popcount (wpay (g idx)) |}) = Done st' ->
+            ts_sum := sum + popcount (wpay (g idx)) + extra |}) = Done st' ->
      rest = {| ts_spans := spans2; ts_full := full2; ts_last_key := ck; ts_curr_key := ck2; ts_idx := idx2;
-               ts_sum := sum + popcount (wpay (g idx)) |} ->
+               ts_sum := sum + popcount (wpay (g idx)) + extra |} ->
      idx <= ts_idx st' /\ (idx < hi -> idx < ts_idx st') /\ ts_idx st' <= N.max hi idx /\
      forall j, idx <= j -> j < ts_idx st' -> dkey (g j) = ck).
-  { intros spans2 idx2 ck2 full2 rest Hcases Hrun ->.
+  { intros spans2 idx2 ck2 full2 extra rest Hcases Hrun ->.
     destruct (N.eqb_spec ck2 ck) as [E|E]; cbn [negb] in Hrun.
-    - (* the loop goes on with the next word of the same key *)
+    - (* the loop goes on (next word of the same key, or the end of the segment after giving up) *)
       subst ck2. apply IH in Hrun; [|exact Hhi|]; cbn [ts_idx ts_curr_key] in *.
       + destruct Hrun as (R1 & R2 & R3 & R4).
-        assert (Hidx2 : idx2 = idx + 1) by (destruct Hcases as [[? _]|[[? _]|[? _]]]; [assumption|congruence|assumption]).
-        subst idx2. repeat split; try lia. intros j Hj1 Hj2.
-        destruct (N.eq_dec j idx) as [->|Hne]; [exact Hinv|apply R4; lia].
-      + intros Hlt2. destruct Hcases as [[-> Hck]|[[Hne _]|[-> [_ Hall]]]]; [|congruence|apply Hall; lia].
+        destruct Hcases as [[-> _]|[[Hne _]|[-> [_ Hall]]]]; [|congruence|].
+        * repeat split; try lia. intros j Hj1 Hj2.
+          destruct (N.eq_dec j idx) as [->|Hne]; [exact Hinv|apply R4; lia].
+        * repeat split; try lia. intros j Hj1 Hj2.
+          destruct (N.eq_dec j idx) as [->|Hne]; [exact Hinv|apply Hall; lia].
+      + intros Hlt2. destruct Hcases as [[-> Hck]|[[Hne _]|[-> _]]]; [|congruence|lia].
         unfold ck1 in Hck. destruct (N.ltb_spec (idx + 1) hi); [congruence|lia].
     - injection Hrun as <-. cbn [ts_idx].
       destruct Hcases as [[-> Hck]|[(_ & H1 & H2 & H3 & H4)|[_ [Hck _]]]]; [| |congruence].
@@ -747,13 +750,14 @@ Proof.
   destruct (SPAN_CAP <=? N.of_nat (length spans1)).
   - cbv zeta in H. destruct (SPAN_CAP <=? N.of_nat (length (compact spans1 maxw))).
     + destruct (give_up P (S (N.to_nat (hi - (idx + 1)))) (idx + 1) hi ck ck1) as [g0| |] eqn:Eg; cbn [bind] in H; try discriminate.
+      destruct (give_up_sum P (S (N.to_nat (hi - (idx + 1)))) (idx + 1) hi ck) as [extra| |]; cbn [bind] in H; try discriminate.
       apply give_up_spec in Eg; [|exact Hhi]. destruct g0 as [[i'|] k']; cbn [fst snd] in *.
       * destruct Eg as (G1 & G2 & G3 & G4 & G5). eapply Hcg; [|exact H|reflexivity].
         right. left. subst k'. repeat split; assumption.
       * destruct Eg as [G1 G2]. eapply Hcg; [|exact H|reflexivity].
         destruct G2 as [G2|[G2 G3]].
         -- right. right. repeat split; assumption.
-        -- left. split; [reflexivity|exact G3].
+        -- left. split; [lia|exact G3].
     + cbn [bind] in H. eapply Hcg; [|exact H|reflexivity]. left. split; reflexivity.
   - cbn [bind] in H. eapply Hcg; [|exact H|reflexivity]. left. split; reflexivity.
 Qed.
@@ -832,16 +836,17 @@ Proof.
     cbv zeta in H. rewrite (compact_id maxw spans1 B1) in H.
     assert (Ecap : (512 <=? N.of_nat (length spans1)) = true) by (apply N.leb_le; exact Hcap). rewrite Ecap in H.
     destruct (give_up P (S (N.to_nat (hi - (idx + 1)))) (idx + 1) hi d ck1) as [g0| |] eqn:Eg; cbn [bind] in H; try discriminate.
+    destruct (give_up_sum P (S (N.to_nat (hi - (idx + 1)))) (idx + 1) hi d) as [extra| |]; cbn [bind] in H; try discriminate.
     apply (give_up_spec P g n rdP) in Eg; [|exact Hhi].
     assert (HQ1 : Qst spans1 true) by (split; [exact B1|right; split; [reflexivity|exact Hcap]]).
     destruct (N.eqb_spec (snd g0) d) as [E|E]; cbn [negb] in H.
     + destruct g0 as [[i'|] k']; cbn [fst snd] in *.
       * destruct Eg as (_ & _ & G3 & G4 & _). congruence.
-      * destruct Eg as [G1 _]. subst k'.
-        apply (IH M) in H; cbn [ts_idx ts_curr_key ts_spans ts_full ts_sum] in *; [|exact Hrun1| |reflexivity|exact HQ1].
+      * (* no later document: the cursor is at the end of the segment, the loop stops at once *)
+        subst k'.
+        apply (IH 0%nat) in H; cbn [ts_idx ts_curr_key ts_spans ts_full ts_sum] in *; [| |intros Hlt1; lia|reflexivity|exact HQ1].
         -- destruct H as (H1 & H2 & _ & H4). split; [exact H1|]. split; [lia|]. split; [lia|]. intros Hf. destruct (H4 Hf) as [Hc _]. discriminate.
-        -- intros Hlt1. destruct M as [|M]; [|lia]. destruct Hrun as (_ & _ & [R3|R3]); [lia|].
-           exfalso. apply R3. replace (idx + N.of_nat 1) with (idx + 1) by lia. apply G1; lia.
+        -- split; [lia|]. split; [intros k Hk; lia|left; lia].
     + injection H as <-. cbn [ts_idx ts_curr_key ts_spans ts_full ts_sum]. split; [exact HQ1|]. split; [lia|]. split; [lia|]. discriminate.
   - (* still room: this word was folded purely *)
     assert (Ecap : (512 <=? N.of_nat (length spans1)) = false) by (apply N.leb_gt; exact Hcap). try rewrite Ecap in H. cbn [bind] in H.
